@@ -103,6 +103,11 @@ func main() {
 		var scs []*scenario
 		var all []string
 		for i := b; i < b+batch && i < hi; i++ {
+			if *out != "" {
+				// breadcrumb: if the process dies inside this scenario (fatal error, out of memory, kill),
+				// the check reports this scenario as the failing input
+				os.WriteFile(*out+".progress", []byte(fmt.Sprintf("%s:%d:%d", *stream, *seed, i)), 0o644)
+			}
 			sc := fn(*seed, i)
 			if sc == nil {
 				continue
@@ -180,6 +185,7 @@ func main() {
 	js, _ := json.MarshalIndent(res, "", " ")
 	if *out != "" {
 		os.WriteFile(*out, js, 0o644)
+		os.Remove(*out + ".progress")
 	} else {
 		os.Stdout.Write(js)
 	}
